@@ -23,6 +23,7 @@ import (
 	"github.com/ChainSafe/sygma-relayer/chains/evm/listener/depositHandlers"
 	"github.com/ChainSafe/sygma-relayer/chains/evm/listener/eventHandlers"
 	subListenerR "github.com/ChainSafe/sygma-relayer/chains/substrate/listener"
+	"github.com/ChainSafe/sygma-relayer/keyshare"
 	"github.com/btcsuite/btcd/btcjson"
 	"github.com/btcsuite/btcd/chaincfg/chainhash"
 	relayerStore "github.com/ChainSafe/sygma-relayer/store"
@@ -429,6 +430,16 @@ func init() {
 			return errOut(eventHandlers.NewDepositEventHandler(c05HfEvm{failAt: a[1]}, c05HfDepositHandler(a[1]), common.Address{}, 1, ch).HandleEvents(s, e))
 		case "evmretry1":
 			return errOut(eventHandlers.NewRetryV1EventHandler(zerolog.Context{}, c05HfEvm{failAt: a[1]}, c05HfDepositHandler(a[1]), c05HfPropStore{a[1] == "propstatus"}, common.Address{}, 1, big.NewInt(2), ch).HandleEvents(s, e))
+		case "evmkeygen":
+			return errOut(eventHandlers.NewKeygenEventHandler(zerolog.Context{}, c05EvmListener{a[1] != "-"}, nil, nil, nil,
+				keyshare.NewECDSAKeyshareStore(os.TempDir()+"/verif-no-such-keyshare"), common.Address{}, 1).HandleEvents(s, e))
+		case "evmfrostkeygen":
+			return errOut(eventHandlers.NewFrostKeygenEventHandler(zerolog.Context{}, c05EvmListener{a[1] != "-"}, nil, nil, nil,
+				keyshare.NewFrostKeyshareStore(os.TempDir()+"/verif-no-such-frost-keyshare"), common.Address{}, 1).HandleEvents(s, e))
+		case "evmrefresh":
+			return errOut(eventHandlers.NewRefreshEventHandler(zerolog.Context{}, nil, nil, c05EvmListener{a[1] != "-"}, nil, nil, nil, nil,
+				keyshare.NewECDSAKeyshareStore(os.TempDir()+"/verif-no-such-keyshare"),
+				keyshare.NewFrostKeyshareStore(os.TempDir()+"/verif-no-such-frost-keyshare"), common.Address{}).HandleEvents(s, e))
 		case "evmretry2":
 			return errOut(eventHandlers.NewRetryV2EventHandler(zerolog.Context{}, c05HfEvm{failAt: a[1]}, common.Address{}, 1, ch).HandleEvents(s, e))
 		case "subdeposit":
@@ -532,6 +543,7 @@ func genC05(g *G) {
 		"evmdeposit": {"events", "lookup"},
 		"evmretry1":  {"events", "retrydeposits", "lookup", "propstatus"},
 		"evmretry2":  {"events"},
+		"evmkeygen":  {"events"}, "evmfrostkeygen": {"events"}, "evmrefresh": {"events"},
 		"subdeposit": {"events"},
 		"subretry":   {"events", "head", "block", "blockhash", "blockevents"},
 		"subsys":     {"events", "metadata"},
